@@ -1239,6 +1239,9 @@ Proof.
   - cbv beta iota zeta delta [put_art]. cbn [fst snd].
     eapply sk_other; [reflexivity | discriminate | discriminate | auto].
   - cbn [fst snd]. eapply sk_end; reflexivity.
+  - apply sk_read; [reflexivity|]. destruct ms; auto.
+  - destruct ms as [|[ac co] rest]; [apply sk_read; auto|]. cbn [fst snd].
+    eapply sk_other; [reflexivity | discriminate | discriminate |]. destruct rest; auto.
   - apply sk_read; auto.
 Qed.
 
@@ -1355,13 +1358,13 @@ Proof.
   clear -Hn. induction (held acts) as [|x l IH]; [exact Hn|]. apply IH. cbn [app] in Hn. inversion Hn; assumption.
 Qed.
 
-Lemma held_start calls : held (map AStart calls) = [].
-Proof. induction calls as [|c r IH]; [reflexivity|]. exact IH. Qed.
+Lemma held_start calls : held (map start_of calls) = [].
+Proof. induction calls as [|c r IH]; [reflexivity|]. destruct c; exact IH. Qed.
 
 (* every interleaving of the atomic steps of any number of schedule / auto calls *)
 Theorem concurrent_bracket K s calls s' acts' :
   valid (log s) -> bracket_ok (log s) ->
-  sys_steps K (s, map AStart calls) (s', acts') ->
+  sys_steps K (s, map start_of calls) (s', acts') ->
   valid (log s') /\ bracket_ok (log s').
 Proof.
   intros Hv Hb H. apply (cinv_bracket s' acts').
@@ -1411,11 +1414,11 @@ Qed.
 
 Theorem run_sched_bracket K s calls schedule :
   valid (log s) -> bracket_ok (log s) ->
-  valid (log (fst (run_sched K s (map AStart calls) schedule)))
-  /\ bracket_ok (log (fst (run_sched K s (map AStart calls) schedule))).
+  valid (log (fst (run_sched K s (map start_of calls) schedule)))
+  /\ bracket_ok (log (fst (run_sched K s (map start_of calls) schedule))).
 Proof.
-  intros Hv Hb. pose proof (run_sched_steps K schedule s (map AStart calls)) as H.
-  destruct (run_sched K s (map AStart calls) schedule) as [s' acts']. cbn [fst].
+  intros Hv Hb. pose proof (run_sched_steps K schedule s (map start_of calls)) as H.
+  destruct (run_sched K s (map start_of calls) schedule) as [s' acts']. cbn [fst].
   eapply concurrent_bracket; eassumption.
 Qed.
 
